@@ -103,4 +103,8 @@ int __CPROVER_uninterpreted_toint(Sc);
 #define FRAME(...) __CPROVER_assigns(__VA_ARGS__)
 #define VF_ASSUME(c) __CPROVER_assume(c)
 #define VF_ASSERT(c, n) __CPROVER_assert(c, n)
+#ifndef true
+#define true 1
+#define false 0
+#endif
 #endif
